@@ -567,6 +567,26 @@ def dsk2(ctx, c):
             want_ = [0x20 if ch_ == "\x00" else ord(ch_) for ch_ in (name_.ljust(8)[:8] + ext_.ljust(3)[:3]).upper()]
             if got_ != want_:
                 nm_bad = nm_bad or (name_, ext_, got_, want_)
+        # ... and at the place of the slot: entry n starts at DIR_OFFSET + 32 n for every n the writer hands out
+        pos_bad = None
+        for slot_ in (0, 7, 8, 9, 20, 70):
+            buf_ = _SparseBuf()
+            env0 = dict(ctx.env)
+            env0.update({"self.buffer": buf_, "%s.name" % pf_: "HELLO", "%s.extension" % pf_: "BIN", "%s.type.int" % pf_: 2, "%s.data_type.int" % pf_: 0})
+            try:
+                _fold_disk_method(ctx, "write_dir_entry", env0, (slot_, "<file>", 5, 17), {})
+            except Exception:
+                pass
+            keys_ = sorted(k_ for k_ in buf_ if isinstance(k_, int))
+            base_ = D.DIR_OFFSET + D.DIR_ENTRY_LEN * slot_
+            if keys_ and len(keys_) >= 11 and keys_[0] != base_:
+                pos_bad = pos_bad or (slot_, keys_[0], base_)
+        if pos_bad:
+            c.finding("write_dir_entry:position", "entry %d is written at offset %d (it starts at %d)" % pos_bad,
+                      "write_dir_entry, folded for directory slot %d, stores the entry from buffer offset %d on; slot n of the directory starts at DIR_OFFSET + 32 n = %d, so the entry lands "
+                      "on top of another slot and the file is not where the reader looks for it" % pos_bad, where)
+        else:
+            c.ok("write_dir_entry:position", "entry n at DIR_OFFSET + 32 n for 6 slots", where)
         if nm_bad:
             c.finding("write_dir_entry:name-bytes", "the name %r / %r is stored as %s" % (nm_bad[0], nm_bad[1], " ".join("%02X" % (x if isinstance(x, int) else 0) for x in nm_bad[2])),
                       "write_dir_entry, folded for the name %r and extension %r, stores %s in the entry's first eleven bytes; the format has %s (upper case, blank padded, and a NUL stored as a "
@@ -811,6 +831,14 @@ def dsk3(ctx, c):
               c.check(rv == {want_rv}, "%s.%s:advance" % (cls, meth), "returns pointer + %d" % sp["length"], "returns %s" % sorted(rv),
                     "%s.%s returns %s, it must return the pointer advanced by the %d bytes of the block" % (cls, meth, sorted(rv), sp["length"]), w)
             if meth == "write":
+                moved = [x for x in ast.walk(f.node) if isinstance(x, (ast.Assign, ast.AugAssign)) for t_ in (x.targets if isinstance(x, ast.Assign) else [x.target])
+                         if isinstance(t_, ast.Name) and t_.id == ptrp]
+                stores_after = [x for x in ast.walk(f.node) if isinstance(x, ast.Assign) and isinstance(x.targets[0], ast.Subscript) and U(x.targets[0].value) == bufp
+                                and moved and x.lineno > moved[0].lineno]
+                if moved and stores_after:
+                    c.finding("%s.write:position" % cls, "the block is written somewhere else than at the pointer given (%s)" % U(moved[0])[:40],
+                              "%s.write changes its pointer (`%s`) before storing the block: the file is a byte stream over its granule chain, so bytes skipped on the way become part of the "
+                              "stream while the lengths recorded in the directory and the FAT do not count them - the trailer is no longer where a reader looks for it" % (cls, U(moved[0])[:60]), w)
                 for o in outs:
                     st = {}
                     for s in o.path.env.get("$stores", ()):
@@ -941,7 +969,7 @@ def dsk4(ctx, c):
     try:
         body4 = body_without_doc(_fl4(repo, fn, depth=2))
         wrong4 = None
-        for lst in ([7], [10, 11], [10, 30, 2, 67], [0, 67, 33]):
+        for lst in ([7], [10, 11], [10, 30, 2, 67], [0, 67, 33], [5, 0, 9], [1, 0], [0]):
             buf = {}
             env4 = dict(ctx.env)
             env4.update({p_list: list(lst), p_sect: 5, "self.buffer": buf})
@@ -1546,11 +1574,14 @@ def _add_file_runs(ctx):
         for kind, t_int, d_int, want_pre, want_post in (("machine-language", 0x02, 0x00, "MLPreamble", "Postamble"), ("ASCII", 0x01, 0xFF, "ASCIIPreamble", None),
                                                          ("BASIC", 0x00, 0x00, "BasicPreamble", None),
                                                          # the file type decides first: type 2 is machine language whatever the ASCII flag says
-                                                         ("machine-language/ASCII-flag", 0x02, 0xFF, "MLPreamble", "Postamble")):
+                                                         ("machine-language/ASCII-flag", 0x02, 0xFF, "MLPreamble", "Postamble"),
+                                                         # ... and only the file type: what the file is called decides nothing
+                                                         ("BASIC named .BIN", 0x00, 0x00, "BasicPreamble", None)):
             env = dict(ctx.env)
             for cn in classes + ["VirtualFileValidationError"]:
                 env[cn] = ClsRef(cn)
-            env.update({"%s.type.int" % p_file: t_int, "%s.data_type.int" % p_file: d_int})
+            env.update({"%s.type.int" % p_file: t_int, "%s.data_type.int" % p_file: d_int,
+                        "%s.extension" % p_file: "BIN" if (t_int == 2 or "named" in kind) else ("TXT" if d_int == 0xFF else "BAS"), "%s.name" % p_file: "PROGRAM"})
             events, notes = [], []
             end = run_concrete(body_without_doc(flat), env, events, notes, workers=WORKERS, resolver=resolver, functions=class_level_functions(repo))
             runs.append((kind, want_pre, want_post, env, events, notes, end))
@@ -2177,7 +2208,33 @@ def _dsk5_reader(ctx, c):
                           repo.loc(lf, exits[0]))
             else:
                 c.ok("list_files:scan", "every entry is visited", repo.loc(lf, n))
+            # ... and as many entries as the writer may fill: find_empty_directory_entry hands out the slots of its own range
+            rv_ = [try_fold(a_, ctx.env) for a_ in n.iter.args]
+            fe_ = repo.method(CLS, "find_empty_directory_entry")
+            wr_ = None
+            for lp_ in [x for x in ast.walk(fe_.node) if isinstance(x, (ast.For, ast.ListComp, ast.GeneratorExp))]:
+                its_ = [lp_.iter] if isinstance(lp_, ast.For) else [g_.iter for g_ in lp_.generators]
+                for it_ in its_:
+                    if isinstance(it_, ast.Call) and U(it_.func) == "range":
+                        vv = [try_fold(a_, ctx.env) for a_ in it_.args]
+                        if all(isinstance(v_, int) for v_ in vv):
+                            wr_ = vv[-1] if len(vv) <= 2 else None
+            if all(isinstance(v_, int) for v_ in rv_) and len(rv_) <= 2 and wr_ is not None:
+                scanned_ = rv_[-1] - (rv_[0] if len(rv_) == 2 else 0)
+                c.check(scanned_ >= wr_, "list_files:scan-count", "reads at least the %d slots the writer may fill" % wr_, "reads %d directory entries, the writer fills slots 0..%d" % (scanned_, wr_ - 1),
+                        "list_files reads %d directory entries but find_empty_directory_entry hands out slots 0..%d: a file whose entry lies beyond the scan is not listed when the image is "
+                        "re-opened, and --append (list, add, rebuild) then drops it for good" % (scanned_, wr_ - 1), repo.loc(lf, n))
             break
+    # an entry that is in use and cannot be read is an error, not something to step over: get_coco_files tells a disk from other bytes by exactly that error, so a
+    # reader that skips implausible entries accepts a long cassette image (or any 161,280 bytes) as a disk, or dies later on bytes it was never meant to see
+    for n in ast.walk(lf.node):
+        if isinstance(n, ast.If) and any(isinstance(x, ast.Continue) for x in n.body) and not any(isinstance(x, ast.Raise) for x in ast.walk(n)):
+            cmps = [x for x in ast.walk(n.test) if isinstance(x, ast.Compare) and isinstance(x.ops[0], (ast.Gt, ast.GtE, ast.Lt, ast.LtE, ast.NotIn, ast.In)) and re.search(r"\.int\b", U(x))]
+            if cmps:
+                c.finding("list_files:skips-unreadable", "an entry in use is skipped when `%s`" % U(n.test)[:50],
+                          "list_files steps over a directory entry when `%s` instead of refusing the image: an implausible entry is how bytes that are not a disk are recognised "
+                          "(VirtualFile.get_coco_files falls through to the cassette reader on that error), so such bytes are now listed as a disk - or end in an unrelated exception" % U(n.test)[:70],
+                          repo.loc(lf, n))
     from .cas import listing_collection
     listing_collection(c, repo, CLS)
     # the FAT chain links the granules in the order the data was laid into them
